@@ -37,7 +37,7 @@ KNOWN = [
      "match": {"feature": "bucket-crossing-constant"}},
     {"id": "C08-generic-negative-offset", "property": "C08",
      "what": "generic layout: a constant keccak(p)-1 is looked up as f_sha3(p) + (2^256-1); add_all zero-extends the 256-bit addend to the 513-bit hash encoding, so (keccak(p)-1)+n never equals the element n-1 (carry not dropped): SSTORE(keccak(4), v); SLOAD((keccak(4)-1)+n) returns 0 for n = 1",
-     "match": {"feature": "negative-offset-constant", "layout": "generic"}},
+     "match": {"feature_in": ["negative-offset-constant", "wrapping-offset"], "layout": "generic"}},
 ]
 
 ASSUMPTIONS = [
@@ -91,16 +91,20 @@ def impl_group(group):
         out["reg"] = -4
         return out
     evs = [zeval.Evaluator(L.z3_env(env)) for env in group["envs"]]
+    keep = []   # the evaluators memoise by AST id: keep every term alive so that ids are not recycled
     for t in group["locs"]:
         z = L.to_z3(t, flat_add=group.get("flat_add", True))
+        keep.append(z)
         try:
             slot, keys, n, sz = SolidityStorage.get_key_structure(ex, z)
+            keep.append(keys)
             vals = [[v for k in keys for v in (k.size(), ev.ev(k))] for ev in evs]
             out["sol"].append([[0, slot, n, sz] + v for v in vals])
         except Exception as e:  # noqa: BLE001
             out["sol"].append([_err_code(e)] * len(evs))
         try:
             d = GenericStorage.decode(ex, z)
+            keep.append(d)
             out["gen"].append([[0, d.size(), ev.ev(d)] for ev in evs])
         except Exception as e:  # noqa: BLE001
             out["gen"].append([_err_code(e)] * len(evs))
@@ -219,6 +223,21 @@ def gen_group(r, tier, p_unreg=0.06, special=None):
             "flat_add": r.random() < 0.7, "layout_types": {str(k): str(v) for k, v in layout.items()}}
 
 
+def vars_of(t):
+    k = t[0]
+    if k == "V":
+        return {t[1]}
+    if k == "S256":
+        return vars_of(t[1])
+    if k == "S512":
+        return vars_of(t[1]) | vars_of(t[2])
+    if k == "SN":
+        return ({t[2][1]} if t[2][0] == "v" else set()) | vars_of(t[3])
+    if k == "Add":
+        return set().union(*[vars_of(x) for x in t[1]]) if t[1] else set()
+    return set()
+
+
 def key_eq(a, b):
     """same chunk and same key (decoded observations under one valuation)"""
     return a == b
@@ -244,6 +263,8 @@ def check_group_spec(group, impl):
                         for tg in (group["tags"][i], group["tags"][j]):
                             if "negative-offset-constant" in tg:
                                 feats.add("negative-offset-constant")
+                        if any(env[x] >= (1 << 255) for t in (locs[i], locs[j]) for x in vars_of(t)):
+                            feats.add("wrapping-offset")
                         fails.append({"layout": layout, "env": env, "i": i, "j": j, "same_slot": same,
                                       "loc_i": locs[i], "loc_j": locs[j], "decoded_i": a, "decoded_j": b,
                                       "features": sorted(feats)})
@@ -305,7 +326,7 @@ def impl_select(case):
 
     fake.check = check
     fake.select = lambda *a, **k: Exec.select(fake, *a, **k)
-    res = Exec.select(fake, cur, q, arrays, bool(sym))
+    res = _z(Exec.select(fake, cur, q, arrays, bool(sym)))
     if z3.is_bv_value(res):
         v = res.as_long()
         return [0] if v == 0 else [1, v - 1]
@@ -351,6 +372,10 @@ def check_transient_wiring(rep):
                  case={"what": bad}, sig={"feature": "transient-not-fresh"})
 
 
+def _z(v):
+    return v.as_z3() if hasattr(v, "as_z3") else v
+
+
 def impl_transient_fresh():
     import z3
 
@@ -379,8 +404,8 @@ def impl_transient_fresh():
         for i, l in enumerate(locs):
             sevm.sstore(ex, this, l, BV(0x42 + i, size=256), transient=True)
         for l in locs:
-            v = sevm.sload(ex, this, l, transient=True)
-            if z3.is_bv_value(v.as_z3()) and v.as_z3().as_long() == 0:
+            v = _z(sevm.sload(ex, this, l, transient=True))
+            if z3.is_bv_value(v) and v.as_long() == 0:
                 return f"{layout}: TSTORE then TLOAD of {l} gives 0 (test harness expectation broken)"
         fresh = sevm.fresh_transient_storage(ex)
         if set(fresh.keys()) != set(ex.transient_storage.keys()):
@@ -391,7 +416,7 @@ def impl_transient_fresh():
             return f"{layout}: fresh_transient_storage shares one StorageData between accounts"
         ex.transient_storage = fresh
         for l in locs:
-            v = sevm.sload(ex, this, l, transient=True).as_z3()
+            v = _z(sevm.sload(ex, this, l, transient=True))
             if not (z3.is_bv_value(v) and v.as_long() == 0):
                 # a Select over the empty array constrained to 0 by the emptiness axiom is fine too
                 s = z3.Solver()
